@@ -180,4 +180,5 @@ term_attr!(VTerm, VertexIdType, OrbitPolicy::Vertex, full);
 term_attr!(ETerm, EdgeIdType, OrbitPolicy::Edge, default);
 term_attr!(FTerm, FaceIdType, OrbitPolicy::Face, full);
 term_attr!(CTerm, VolumeIdType, OrbitPolicy::Volume, full);
-term_attr!(VDef, VertexIdType, OrbitPolicy::Vertex, default);
+// bound through the LINEAR vertex policy on purpose: the attribute manager must treat it as a vertex attribute all the same
+term_attr!(VDef, VertexIdType, OrbitPolicy::VertexLinear, default);
